@@ -42,7 +42,11 @@ def check(repo: Repo, rep: Report) -> None:
         # roles: the id is the cell the element handler increments; the presence flag the cell it sets True
         ids = names_augmented(outer["on_next"], ast.Add)
         present = names_assigned_const(outer["on_next"], True)
-        rep.require(len(ids) == 1 and len(present) == 1, f"{name}: id cell / presence flag")
+        if len(ids) != 1 or len(present) != 1:
+            rep.ob("R1-stale-timer", outer["on_next"], f"{name}: element handler bumps one id and raises one presence flag", False,
+                   f"{name}: the element handler does not keep an id (incremented per element) and a presence flag (set True per "
+                   f"element): pending-ness of an element is not decided by a flag, or superseded timers are not invalidated")
+            continue
         idc, flag = ids[0], present[0]
         has_flag = lambda s_: any(p_ and cell_name(e_) == flag for e_, p_ in s_.ctx.guards)
         # id bumps
